@@ -550,6 +550,15 @@ class ValueJobs:
         self.jobs = []
 
 
+def same_json(a, b):
+    """two tojson answers (lists of character codes) as JSON documents (object key order is not significant)"""
+    import json
+    try:
+        return json.loads(''.join(chr(int(x)) for x in a)) == json.loads(''.join(chr(int(x)) for x in b))
+    except (ValueError, TypeError):
+        return False
+
+
 def np_ints(d):
     """(np int64 (k) (a b ...)) -> [a, b, ...];  (scalar int64 v) -> v"""
     if isinstance(d, list) and d and d[0] == 'np':
@@ -623,8 +632,7 @@ def run(cases, tier, rng):
     samples = []
     distinct = set()
     evaluations = 0
-    info = dict(eager_crashes=0, malformed={}, long_sessions=0, uncompared_values=0, lazy_checked=0,
-                model_steps=0, value_jobs=0)
+    info = dict(eager_crashes=0, malformed={}, long_sessions=0, lazy_checked=0, model_steps=0, value_walks=0)
     corr = {'corr:virtual==eager': True, 'corr:trace-is-a-model-run': True, 'corr:invocation-counts': True,
             'corr:declared-queries-do-not-generate': True, 'corr:partitioned==eager': True,
             'corr:partition-model(positions)': True, 'corr:pinned-model-predicts-crash': True}
@@ -689,7 +697,6 @@ def run(cases, tier, rng):
     mres = run_virtrun(mlines) if mlines else {}
     C.log('model: %d lines in %.1fs' % (len(mlines), C.time.time() - t0))
 
-    jobs = ValueJobs()
 
     for c in cases:
         r = res.get(c.id, 'crash missing')
@@ -864,16 +871,17 @@ def run(cases, tier, rng):
                 if v[1] == 'build' or v[2] == '=' or v[2] == 'lazy':
                     continue
 
-                def cb(eq, c=c, k=k, st_in=st_in, line=line, r=r, v=v, e=e):
-                    if eq is True:
-                        return
-                    if eq is None:
-                        info['uncompared_values'] += 1
-                        return
-                    bump('viol')
-                    add('viol', 'step %d %s: virtual %s != eager %s' % (k, unparse(st_in), unparse(v[2])[:300], unparse(e[2])[:300]),
-                        c, [line, '# driver: ' + r[:1500]], obl='corr:virtual==eager')
-                jobs.same(e[2], canon(v[2]), cb)
+                veq = fld(so, 'veq')
+                info['value_walks'] += 1
+                if veq is not None and veq[1] == '1':
+                    continue
+                if veq is None and canon(v[2]) == e[2]:
+                    continue
+                bump('viol')
+                add('viol', 'step %d %s: virtual %s != eager %s' % (k, unparse(st_in), unparse(veq[2] if veq else v[2])[:300],
+                                                                  unparse(veq[3] if veq else e[2])[:300]),
+                    c, [line, '# driver: ' + r[:1500]], obl='corr:virtual==eager')
+                break
             else:
                 bump('agree' if not use_lenient else 'long-accepted')
                 nontrivial = ngen >= 1 and nok >= 2
@@ -951,34 +959,32 @@ def run(cases, tier, rng):
                         c, [line, '# driver: ' + r[:1500]], EMPTY_SIG if total == 0 else None, obl='corr:partitioned==eager')
                     ok_session = False
                     break
-                bounds = [0] + [int(x) for x in p[2][1]]
-                for j, (pp, ee) in enumerate(zip(p[2][2:], es[1:])):
-                    if bounds[j + 1] == bounds[j]:
-                        continue              # both empty (lengths were compared by the driver); types compared above
-                    def cb(eq, c=c, k=k, j=j, st_in=st_in, line=line, r=r, pp=pp, ee=ee):
-                        if eq is True:
-                            return
-                        if eq is None:
-                            info['uncompared_values'] += 1
-                            return
-                        bump('viol')
-                        add('viol', 'step %d %s: partition %d of the result %s != the eager slice %s' %
-                            (k, unparse(st_in), j, unparse(pp)[:300], unparse(ee)[:300]), c, [line, '# driver: ' + r[:1500]],
-                            obl='corr:partitioned==eager')
-                    jobs.same(ee, pp, cb)
+                peq = fld(so, 'peq')
+                bad_part = None
+                for j, flag in enumerate(peq[1:] if peq else []):
+                    info['value_walks'] += 1
+                    if flag != '1':
+                        bad_part = (j, flag)
+                        break
+                if peq is None or bad_part is not None:
+                    bump('viol')
+                    add('viol', 'step %d %s: partition %s of the result %s != the eager slice %s' %
+                        (k, unparse(st_in), bad_part[0] if bad_part else '?', unparse(bad_part[1][1])[:300] if bad_part else '?',
+                         unparse(bad_part[1][2])[:300] if bad_part else '?'), c, [line, '# driver: ' + r[:1500]],
+                        obl='corr:partitioned==eager')
+                    ok_session = False
+                    break
             elif st_in[0] == 'at':
-                def cb(eq, c=c, k=k, st_in=st_in, line=line, r=r, p=p, e=e):
-                    if eq is True:
-                        return
-                    if eq is None:
-                        info['uncompared_values'] += 1
-                        return
+                aeq = fld(so, 'aeq')
+                info['value_walks'] += 1
+                if aeq is None or aeq[1] != '1':
                     bump('viol')
                     add('viol', 'step %d %s: partitioned %s != eager %s' % (k, unparse(st_in), unparse(p[2])[:300], unparse(e[2])[:300]),
                         c, [line, '# driver: ' + r[:1500]], obl='corr:partitioned==eager')
-                jobs.same(e[2], p[2], cb)
+                    ok_session = False
+                    break
             elif st_in[0] in ('tojson', 'len'):
-                if p[2] != e[2]:
+                if p[2] != e[2] and not (st_in[0] == 'tojson' and same_json(p[2], e[2])):
                     bump('viol')
                     add('viol', 'step %d %s: partitioned %s != eager %s' % (k, unparse(st_in), unparse(p[2])[:300], unparse(e[2])[:300]),
                         c, [line, '# driver: ' + r[:1500]], obl='corr:partitioned==eager')
@@ -990,17 +996,6 @@ def run(cases, tier, rng):
                 distinct.add(line.split(' ', 1)[1])
                 if len(samples) < 6:
                     samples.append(line[:400])
-
-    info['value_jobs'] = len(jobs.jobs)
-    t0 = C.time.time()
-    jobs.flush()
-    C.log('value comparisons through modelrun: %d in %.1fs' % (info['value_jobs'], C.time.time() - t0))
-    if info['uncompared_values']:
-        # fail closed only when it is not marginal
-        if info['uncompared_values'] > max(20, info['value_jobs'] // 5):
-            findings.append(dict(kind='bad', what='%d value comparisons could not be evaluated by modelrun' % info['uncompared_values'],
-                                 case_lines=['# see evidence'], signature=None, no_input=True, size=0, cid='-'))
-            corr['corr:virtual==eager'] = False
 
     # keep the smallest representative per (kind, signature, headline)
     best = {}
